@@ -342,6 +342,7 @@ pub fn stream_comp_case(
     let mut points = 0usize;
     let mut releveled = false;
     let mut prev_left_space = true; // previous call left output space unused (nothing pending)
+    let mut pending_full: Option<usize> = None;
     let mut nosync_since: Option<usize> = None;
     let _ = &mut nosync_since;
     loop {
@@ -454,6 +455,22 @@ pub fn stream_comp_case(
         let spare = sch.callback || w < olen;
         let qualifies = flush_i != 0 && flush_i != 4 && prev_left_space && pos == offered_end && spare
             && st == TDEFLStatus::Okay;
+        // a Full flush asked for with nothing pending and all input consumed whose output did not fit:
+        // it is complete once the rest has been collected by calls that bring no new input
+        if flush_i == 3 && prev_left_space && pos == offered_end && !spare && st == TDEFLStatus::Okay {
+            pending_full = Some(pos);
+        } else if let Some(fp) = pending_full {
+            if chunk.is_empty() && pos == fp && st == TDEFLStatus::Okay {
+                if spare {
+                    if flush_i == 3 || flush_i == 0 || flush_i == 2 {
+                        cuts.push(fp);
+                    }
+                    pending_full = None;
+                }
+            } else {
+                pending_full = None;
+            }
+        }
         if qualifies {
             if flush_i == 3 {
                 cuts.push(pos);
